@@ -193,6 +193,19 @@ Ext == <<
    E("addsd xmm1, qword ptr [ebx]", {"xmm1", "ebx", "mem[ebx]"}, {"xmm1"}, {}),
    E("mulss xmm1, dword ptr [ebx]", {"xmm1", "ebx", "mem[ebx]"}, {"xmm1"}, {}),
    E("sqrtpd xmm1, xmm2", {"xmm2"}, {"xmm1"}, {}),
+   \* partial writes: the untouched part of the destination register is an input of the result
+   E("movss xmm1, xmm2", {"xmm1", "xmm2"}, {"xmm1"}, {}),
+   E("movsd xmm1, xmm2", {"xmm1", "xmm2"}, {"xmm1"}, {}),
+   E("movss xmm1, dword ptr [ebx]", {"ebx", "mem[ebx]"}, {"xmm1"}, {}),
+   E("movss dword ptr [ebx], xmm1", {"xmm1", "ebx"}, {"mem[ebx]"}, {}),
+   E("movlps xmm1, qword ptr [ebx]", {"xmm1", "ebx", "mem[ebx]"}, {"xmm1"}, {}),
+   E("movhps xmm1, qword ptr [ebx]", {"xmm1", "ebx", "mem[ebx]"}, {"xmm1"}, {}),
+   E("movhlps xmm1, xmm2", {"xmm1", "xmm2"}, {"xmm1"}, {}),
+   E("movlhps xmm1, xmm2", {"xmm1", "xmm2"}, {"xmm1"}, {}),
+   E("sqrtss xmm1, xmm2", {"xmm1", "xmm2"}, {"xmm1"}, {}),
+   E("cvtss2sd xmm1, xmm2", {"xmm1", "xmm2"}, {"xmm1"}, {}),
+   E("pinsrw xmm1, eax, 3", {"xmm1", "eax"}, {"xmm1"}, {}),
+   E("pinsrw mm1, eax, 1", {"mm1", "eax"}, {"mm1"}, {}),
    E("cvtsi2sd xmm1, eax", {"eax", "xmm1"}, {"xmm1"}, {}),
    E("cvttsd2si eax, xmm1", {"xmm1"}, {"eax"}, {}),
    E("pmovmskb eax, xmm1", {"xmm1"}, {"eax"}, {}),
